@@ -25,7 +25,7 @@ LEVEL_NOTE = 'Trusted: mc/refmodel.py (validated against list definitions by C04
 TECHNIQUE = 'stateless bounded-exhaustive step-wise exploration of real pipelines against an incremental reference interpreter'
 
 LEAF_OPS = [['map', 'inc'], ['filter', 'even'], ['scan', 'add', '0'], ['count'], ['sum', True], ['last'], ['to_list'],
-            ['batch', 1], ['batch', 2], ['batch', 3], ['take', 2], ['first'], ['pad_end', 1, 9]]
+            ['batch', 1], ['batch', 2], ['batch', 3], ['take', 2], ['first'], ['pad_end', 1, 9], ['start_with', [7]], ['pad_start', 1, 9]]
 
 PARENTS = ['none', 'group_by', 'roll21', 'roll22', 'roll32', 'roll12', 'split', 'tsplit_inc', 'tsplit_exc',
            'tee_merge_count', 'tee_zip_count', 'tee_cl_count', 'tee_merge_last', 'tee_zip_last', 'tee_cl_last']
@@ -73,7 +73,7 @@ def excluded(spec):
 
 
 # input type each leaf operator needs / output type it produces (items are ints)
-NEEDS_INT = {'map', 'filter', 'scan', 'sum', 'pad_end'}
+NEEDS_INT = {'map', 'filter', 'scan', 'sum', 'pad_end', 'start_with', 'pad_start'}
 MAKES_LIST = {'to_list', 'batch'}
 
 
@@ -153,6 +153,8 @@ def run_case(case, acc):
     sp = harness.status_problem(sink)
     if sp:
         out.append(viol(spec, sp, {'spec': spec, 'seq': seq, 'error': repr(sink.error)}))
+    if sink.before_first_input:
+        out.append(viol(spec, 'emitted-before-any-input-was-consumed', {'spec': spec, 'seq': seq, 'emitted': sink.before_first_input}))
     bad = None
     sofar = []
     for t, (a, b) in enumerate(zip(msteps + [mend], steps + [end])):
